@@ -109,7 +109,8 @@ Sem(e, p, s, a, look, d) ==
 SemEntry == SemCall(cfg.rule, Lo, <<>>, "N", FALSE, 0)
 
 \* Full parse: prefix, then (WHITESPACE | COMMENT)* unless the entry rule is atomic / compound, then end of input
-EntryTrails == LET ty == RuleOf(cfg.rule).ty IN ty # "atomic" /\ ty # "compound"
+\* rules::EOI as an entry point (rule_eoi!) is matched without the trailing skip, like an atomic rule
+EntryTrails == cfg.rule # "EOI" /\ LET ty == RuleOf(cfg.rule).ty IN ty # "atomic" /\ ty # "compound"
 SemFull ==
   LET r == SemEntry IN
   IF ~r.ok THEN [ok |-> FALSE, p |-> r.p, t |-> <<>>]
